@@ -11,6 +11,7 @@ import ast
 
 from ..absint import NONE, TOP, Frame, Interp, Result, State, dedupe, exc, unbox_deep, val, without_heap
 from ..astutil import FUNC_TYPES
+from ..effects import DELETED  # noqa: F401  (re-exported: the state of an attribute removed from a wrapped object)
 from ..loader import AnalysisError
 from ..objects import ObjectDomain, is_inst
 
